@@ -1155,3 +1155,215 @@ Proof.
   intros c. split; [reflexivity|].
   eapply RepInv_ext; [| |exact new_RepInv]; reflexivity.
 Qed.
+
+(* ================================================================== *)
+(* Commit discipline: snapshot() never panics along a history           *)
+(* ================================================================== *)
+
+(* What a Raft node guarantees about hard_state.commit when it writes to the
+   storage: commit designates the snapshot point or a held entry; compaction
+   stays at or below commit (compact_index <= applied <= commit); appends never
+   leave the log shorter than commit. *)
+Definition spre_commit (s : spec) (o : op) : Prop :=
+  match o with
+  | OSetHardState h =>
+      hs_commit h = sp_snap_i s \/ sp_first s <= hs_commit h < sp_next s
+  | OSetCommit c => c = sp_snap_i s \/ sp_first s <= c < sp_next s
+  | OCompact ci =>
+      ci <= sp_first s \/ hs_commit (sp_hs s) = sp_snap_i s \/ ci <= hs_commit (sp_hs s)
+  | OAppend ents =>
+      match ents with
+      | [] => True
+      | n0 :: _ =>
+          hs_commit (sp_hs s) = sp_snap_i s
+          \/ hs_commit (sp_hs s) < e_index n0 + N.of_nat (length ents)
+      end
+  | _ => True
+  end.
+
+(* spre without the (derivable) obligation on snapshot *)
+Definition spre_nosnap (s : spec) (o : op) : Prop :=
+  match o with QSnapshot _ _ => True | _ => spre s o end.
+
+Lemma spre_of_nosnap : forall s o, commit_ok s -> spre_nosnap s o -> spre s o.
+Proof. intros s o Hc H. destruct o; try exact H. exact Hc. Qed.
+
+Lemma sp_entry_at_some : forall s i,
+    sp_first s <= i < sp_next s -> exists e, sp_entry_at s i = Some e.
+Proof.
+  intros s i [H1 H2]. unfold sp_entry_at, sp_next in *.
+  destruct (i <? sp_first s) eqn:E; [lia|].
+  destruct (nth_error (sp_ents s) (N.to_nat (i - sp_first s))) eqn:En; [eauto|].
+  apply nth_error_None in En. lia.
+Qed.
+
+Lemma spec_commit_to_commit_ok : forall s i,
+    sp_first s <= i < sp_next s -> commit_ok (spec_commit_to s i).
+Proof.
+  intros s i Hr. unfold spec_commit_to.
+  destruct (sp_entry_at_some s i Hr) as [e He]. rewrite He.
+  unfold commit_ok, sp_next in *. cbn. right. lia.
+Qed.
+
+Theorem commit_ok_step : forall s o,
+    commit_ok s -> spre s o -> spre_commit s o -> commit_ok (spec_step s o).
+Proof.
+  intros s o Hc Hp Hd. destruct o; cbn [spec_step spre spre_commit] in *; try exact Hc.
+  - (* set_hardstate *) unfold commit_ok, sp_next in *. cbn. exact Hd.
+  - (* set_commit *) unfold commit_ok, sp_next in *. cbn. exact Hd.
+  - (* commit_to *) apply spec_commit_to_commit_ok; exact Hp.
+  - (* apply_snapshot *)
+    destruct (s_index s0 <? sp_first s); [exact Hc|].
+    unfold commit_ok. cbn. left; reflexivity.
+  - (* compact *)
+    destruct (i <=? sp_first s) eqn:E; [exact Hc|].
+    unfold commit_ok, sp_next in *. cbn. rewrite skipn_length.
+    destruct Hp as [Hp|Hp]; [lia|]. lia.
+  - (* append *)
+    destruct ents as [|n0 t]; [exact Hc|].
+    destruct Hp as (_ & Hr & _).
+    unfold commit_ok, sp_next in *. cbn [sp_hs sp_snap_i sp_first sp_ents].
+    rewrite app_length, firstn_length. lia.
+  - (* commit_to_and_set_conf_states *)
+    pose proof (spec_commit_to_commit_ok s i Hp) as H.
+    destruct c; [|exact H]. exact H.
+Qed.
+
+Fixpoint spres_disciplined (s : spec) (ops : list op) : Prop :=
+  match ops with
+  | [] => True
+  | o :: rest =>
+      spre_nosnap s o /\ spre_commit s o /\ spres_disciplined (spec_step s o) rest
+  end.
+
+Lemma disciplined_admissible : forall ops s,
+    commit_ok s -> spres_disciplined s ops ->
+    spres s ops /\ commit_ok (fold_left spec_step ops s).
+Proof.
+  induction ops as [|o rest IH]; intros s Hc Hd; cbn [spres spres_disciplined fold_left] in *.
+  - split; [exact I|exact Hc].
+  - destruct Hd as (Hn & Hcm & Hrest).
+    pose proof (spre_of_nosnap s o Hc Hn) as Hp.
+    pose proof (commit_ok_step s o Hc Hp Hcm) as Hc'.
+    destruct (IH _ Hc' Hrest) as (H1 & H2).
+    split; [split; assumption|exact H2].
+Qed.
+
+Lemma commit_ok_new : commit_ok spec_new.
+Proof. left. reflexivity. Qed.
+
+(* Under the commit discipline no operation of a history from new() panics --
+   in particular Storage::snapshot -- and in the final state the snapshot
+   specification applies. *)
+Theorem history_snapshot : forall ops,
+    spres_disciplined spec_new ops ->
+    exists m, run new ops = Ok m /\ RepInv m
+      /\ abs m = fold_left spec_step ops spec_new
+      /\ commit_ok (abs m)
+      /\ forall req to,
+           (trig_snap m = true ->
+              storage_snapshot m req to
+              = Ok (set_trig_snap m false, SErr SnapshotTemporarilyUnavailable))
+           /\ (trig_snap m = false ->
+               exists s t, storage_snapshot m req to = Ok (m, SOk s)
+                 /\ storage_term m (hs_commit (hs m)) = Ok (SOk t)
+                 /\ s_term s = t /\ s_cs s = cs m
+                 /\ s_index s = N.max (hs_commit (hs m)) req
+                 /\ req <= s_index s).
+Proof.
+  intros ops Hd.
+  destruct (disciplined_admissible ops spec_new commit_ok_new Hd) as (Hp & Hc).
+  destruct (history_from_new ops Hp) as (m & Hr & HI & Ha & _).
+  exists m. rewrite <- Ha in Hc.
+  split; [exact Hr|]. split; [exact HI|]. split; [exact Ha|]. split; [exact Hc|].
+  intros req to. apply snapshot_spec; assumption.
+Qed.
+
+(* ================================================================== *)
+(* Concrete instances (hypotheses are satisfiable; candidate findings)  *)
+(* ================================================================== *)
+
+Definition ex_entry (i t : N) (dlen : nat) : entry := mkEntry 0 t i (repeat 7 dlen) [].
+
+(* a non-trivial admissible, disciplined history *)
+Definition ex_history : list op :=
+  [ OAppend [ex_entry 1 1 0; ex_entry 2 1 127; ex_entry 3 2 128];
+    OCommitTo 2;
+    OCompact 2;
+    QEntries 2 4 (Some 0) (CtxEmpty false);
+    QSnapshot 5 1;
+    OAppend [ex_entry 3 3 300; ex_entry 4 3 1];
+    OCommitTo 4;
+    OApplySnapshot (mkSnap 7 3 (mkCS [1; 2; 3] [] [] [] false));
+    QSnapshot 0 1;
+    OAppend [ex_entry 8 3 5];
+    QTerm 7; QTerm 8; QTerm 6; QTerm 9 ].
+
+(* closes computed comparisons: [Lt = Lt], [Eq = Gt -> False], disjunctions *)
+Ltac fin :=
+  solve [ exact I | reflexivity | discriminate | intro; discriminate
+        | split; fin | left; fin | right; fin ].
+
+Example ex_history_disciplined : spres_disciplined spec_new ex_history.
+Proof. vm_compute. repeat split; fin. Qed.
+
+(* a reachable state with a compacted prefix, a snapshot point and entries *)
+Definition ex_state : mem :=
+  mkMem (mkHS 2 0 4) (mkCS [1; 2; 3] [] [] [] false)
+        [ex_entry 4 2 0; ex_entry 5 2 127; ex_entry 6 3 128] 2 1 false false None.
+
+Example ex_state_RepInv : RepInv ex_state /\ commit_ok (abs ex_state)
+                          /\ snap_index ex_state + 1 < first_of ex_state.
+Proof. vm_compute. repeat split; fin. Qed.
+
+(* size-limited read on that state: one entry is returned although max = 0;
+   130 bytes admit only the first (4 bytes), 137 admit the second too *)
+Example ex_state_entries :
+  storage_entries ex_state 4 7 (Some 0) (CtxEmpty false)
+    = Ok (ex_state, SOk [ex_entry 4 2 0])
+  /\ storage_entries ex_state 4 7 (Some 136) (CtxEmpty false)
+    = Ok (ex_state, SOk [ex_entry 4 2 0])
+  /\ storage_entries ex_state 4 7 (Some 137) (CtxEmpty false)
+    = Ok (ex_state, SOk [ex_entry 4 2 0; ex_entry 5 2 127])
+  /\ storage_entries ex_state 4 7 None (CtxEmpty false)
+    = Ok (ex_state, SOk (entries ex_state)).
+Proof. repeat split; vm_compute; reflexivity. Qed.
+
+(* F: a fresh store panics on the empty read entries(1, 1) ... *)
+Example new_entries_empty_range_panics :
+  storage_entries new 1 1 None (CtxEmpty false) = Panic site_entries_entries0.
+Proof. reflexivity. Qed.
+
+(* ... whereas a store holding an entry answers Ok([]) to entries(first, first) *)
+Lemma entries_empty_range_nonempty_store : forall m lo max ctx,
+    RepInv m -> entries m <> [] -> first_of m <= lo <= next_of m ->
+    trig_log m && can_async ctx = false ->
+    storage_entries m lo lo max ctx = Ok (m, SOk []).
+Proof.
+  intros m lo max ctx HI Hne [H1 H2] Ht.
+  rewrite (entries_eq m lo lo max ctx HI Hne H1 ltac:(lia) H2 Ht).
+  unfold range_of. replace (N.to_nat (lo - lo)) with O by lia. reflexivity.
+Qed.
+
+(* F: compact(last + 1) rewinds first_index/last_index to the snapshot point *)
+Example compact_all_example :
+  let m := set_entries new [ex_entry 1 1 0; ex_entry 2 1 0; ex_entry 3 1 0] in
+  exists m', compact m 4 = Ok m'
+    /\ first_index m' = Ok 1 /\ last_index m' = 0
+    /\ append m' [ex_entry 4 1 0] = Panic site_append_gap.
+Proof. eexists. repeat split; vm_compute; reflexivity. Qed.
+
+(* F: after compacting past snapshot index + 1, term(first_index - 1) is
+   Compacted although the Storage doc retains that term *)
+Example term_before_first_example :
+  storage_term ex_state 3 = Ok (SErr Compacted)
+  /\ storage_term ex_state 2 = Ok (SOk 1).
+Proof. split; reflexivity. Qed.
+
+(* F: Storage::snapshot(request_index) with request_index above the commit
+   index relabels the snapshot: index = request_index, term = term(commit) *)
+Example snapshot_relabel_example :
+  exists s, storage_snapshot ex_state 6 1 = Ok (ex_state, SOk s)
+    /\ s_index s = 6 /\ s_term s = 2
+    /\ storage_term ex_state 6 = Ok (SOk 3).
+Proof. eexists. repeat split; vm_compute; reflexivity. Qed.
